@@ -25,6 +25,8 @@ def if_then_else(cond, truev, falsev):
     if callable(falsev): falsev = guarded(~cond)(falsev)()
 
     if isinstance(truev, list):
+        if len(truev) != len(falsev): # zip() would silently drop the extra elements
+            raise ValueError("if_then_else on lists of different lengths")
         return [if_then_else(cond, truevi, falsevi) for (truevi,falsevi) in zip(truev,falsev)]
     
     if isinstance(truev, LinCombFxp):
